@@ -84,6 +84,16 @@ fn main() {
             Tier::Thorough => 2400,
         }),
     };
+    // global watchdog: a check that does not finish is broken/inconclusive, never a verdict
+    {
+        let limit = ctx.budget_s * 3 + 600;
+        let prop = prop.clone();
+        let _ = std::thread::spawn(move || {
+            std::thread::sleep(std::time::Duration::from_secs(limit));
+            eprintln!("WATCHDOG: check {prop} did not finish within {limit}s - inconclusive (no verdict)");
+            std::process::exit(2);
+        });
+    }
     let Some((rep, meta)) = rcverif::props::dispatch(&ctx) else {
         eprintln!("unknown property {prop}");
         std::process::exit(2);
